@@ -360,7 +360,9 @@ def _scale_task(task, G, res):
             try:
                 km, _ = models.construct(_kfd_task(task, k, edges, "float"))
                 lp = hx.snapshot_unsolved(km.solver)
-                r, _v = smt.feasible(lp, timeout_ms=60000)
+                # float data: the scaled flow is conserved only up to rounding, so feasibility is read with the solver's
+                # tolerance (TOL reading), as HiGHS does -- the exact reading of a rounded program would be vacuously unsat
+                r, _v = smt.feasible(lp, eps=Fraction(1, 10 ** 9), timeout_ms=60000)
             except Exception as e:
                 r = "raised:" + type(e).__name__
             verdicts.append(r)
